@@ -17,9 +17,10 @@ from pathlib import Path
 
 VERIF = Path(__file__).resolve().parent.parent
 SPEC = VERIF / "spec"
-BUILD = VERIF / "build"
-EVID = VERIF / "evidence"
-REPLAYS = VERIF / "replays"
+_OUT = Path(os.environ.get("CFDP_VERIF_OUT", str(VERIF)))   # developer runs (mutants.py) write elsewhere
+BUILD = _OUT / "build"
+EVID = _OUT / "evidence"
+REPLAYS = _OUT / "replays"
 REPO = Path(os.environ.get("CFDP_REPO", "/repo"))
 TLA_CP = "/opt/veriftools/tla/tla2tools.jar:/opt/veriftools/tla/CommunityModules-deps.jar"
 
@@ -278,7 +279,7 @@ def match_known(prop: str, rec: dict, known: list[dict]) -> dict | None:
 # ---- evidence -------------------------------------------------------------------------------------
 def write_evidence(prop: str, tier: str, level: str, coverage: dict, wall: float, violations: int,
                    assumptions: list[str] | None = None, extra: dict | None = None) -> None:
-    EVID.mkdir(exist_ok=True)
+    EVID.mkdir(parents=True, exist_ok=True)
     ev = {
         "property_id": prop,
         "tier": tier,
@@ -295,7 +296,7 @@ def write_evidence(prop: str, tier: str, level: str, coverage: dict, wall: float
 
 
 def save_replay(prop: str, name: str, obj) -> Path:
-    REPLAYS.mkdir(exist_ok=True)
+    REPLAYS.mkdir(parents=True, exist_ok=True)
     p = REPLAYS / f"{prop}_{name}.json"
     p.write_text(json.dumps(obj, indent=1))
     return p
